@@ -24,15 +24,16 @@ ENTRY = {
 PROTO = {'tcp': 6, 'udp': 17, 'any': 0, 'icmp': 1}
 
 
-def conf_for(entries):
+def conf_for(entries, ike_lifetime=None):
     """Configuration dictionary of endpoint A for a set of abstract entries (the independent reading is `expected_spd`)."""
     conf = {}
+    kw = {} if ike_lifetime is None else {'lifetime': ike_lifetime}
     for e in sorted(entries):
         peer, protect = ENTRY[e]
         v6 = peer == 'C'
         name = f'A-{peer}'
         if name not in conf:
-            c = wd.connection_dict('A', peer, v6=v6)
+            c = wd.connection_dict('A', peer, v6=v6, **kw)
             c['protect'] = []
             conf[name] = c
         conf[name]['protect'].append(dict(protect))
@@ -167,11 +168,12 @@ def acquire_mapping(v, tier):
     """An ACQUIRE with an installed out-policy's index is negotiated with that connection's peer, with the entry's proposal, mode,
     lifetime and selectors inside the entry's; IKE_SAs are re-used; an unknown index is ignored."""
     n = 0
-    for entries in ({1}, {1, 2}, {3}, {1, 2, 3}, {4}, {1, 4}, {5}, {3, 5}):
+    # (the last two rounds: an IKE_SA whose own lifetime is far shorter than the entries' - the CHILD_SA lifetime is the entry's all the same)
+    for entries, ike_life in (({1}, None), ({1, 2}, None), ({3}, None), ({1, 2, 3}, None), ({4}, None), ({1, 4}, None), ({5}, None), ({3, 5}, None), ({1, 2}, 2), ({3, 5}, 2)):
         for e in sorted(entries):
             peer, p = ENTRY[e]
             v6 = peer == 'C'
-            conf = {'A': conf_for(entries), 'B': peer_conf('B'), 'C': peer_conf('C')}
+            conf = {'A': conf_for(entries, ike_life), 'B': peer_conf('B'), 'C': peer_conf('C')}
             w = wd.World(conf=conf, endpoints=('A', 'B', 'C'), seed=common.SEED)
             try:
                 w.v6 = v6
